@@ -99,6 +99,17 @@ func checkToken(tok string) (viol string, nontrivial bool) {
 		}
 	}
 
+	if isHexStr {
+		// the two quantity decoders agree: what one accepts as a value <= 0xff the other accepts as the same value
+		switch {
+		case uerr == nil && uint64(u) <= 0xff && (berr != nil || uint64(b) != uint64(u)):
+			return fmt.Sprintf("Uint64.UnmarshalJSON(%q) = %d but Byte.UnmarshalJSON gives %d, %v", tok, uint64(u), byte(b), berr), nontrivial
+		case berr == nil && uerr != nil:
+			// (values above 0xff are outside what a Byte can hold; what it does with them is not claimed)
+			return fmt.Sprintf("Byte.UnmarshalJSON(%q) = %d although Uint64.UnmarshalJSON refuses the token: %v", tok, byte(b), uerr), nontrivial
+		}
+	}
+
 	// ---- byte strings (eth.Bytes), fresh destination
 	var (
 		bs   eth.Bytes
@@ -184,7 +195,7 @@ func TestC17_ExhaustiveTokens(t *testing.T) {
 func TestC17_EveryByte(t *testing.T) {
 	ev := evid.For("C17", "EveryByte")
 	si, sn := shard()
-	seeds := []string{"0", "1a", "ff", "AbC", "0100", "1234567", "deadbeef", "fFfFfFfFfFfFfFfF", "00000000000000001"}
+	seeds := []string{"0", "1a", "ff", "AbC", "0100", "1234567", "deadbeef", "fFfFfFfFfFfFfFfF", "00000000000000001", "0000000000000000000000000000000000000000000000000000000000000001"}
 	n := 0
 	for k, in := range seeds {
 		if k%sn != si {
